@@ -256,3 +256,73 @@ func VerifHarness_C19_cycle() {
 	_ = err
 	verifObserve("returned", 1)
 }
+
+func init() { verifRegister("C19_siblings", VerifHarness_C19_siblings) }
+
+// C19_siblings: two components that start with the same sub-component and continue with members of their own
+// (the expanded field lists must not share storage), each used by a message and by a group.
+func VerifHarness_C19_siblings() {
+	nb := verifConc(ndInt("B.fields", 1, 3))
+	names := []string{"F4", "F5", "F2"}
+	b := &XMLComponent{Name: "B"}
+	for i := 0; i < nb; i++ {
+		b.Members = append(b.Members, c19Field(names[i], c19Req("B."+names[i]+".required")))
+	}
+	p1 := &XMLComponent{Name: "P1", Members: []*XMLComponentMember{c19Comp("B", c19Req("P1.B.required")), c19Field("F1", c19Req("P1.F1.required"))}}
+	p2 := &XMLComponent{Name: "P2", Members: []*XMLComponentMember{c19Comp("B", c19Req("P2.B.required")), c19Field("F6", "Y")}}
+	m1 := &XMLComponent{Name: "M1", MsgType: "D", Members: []*XMLComponentMember{c19Comp("P1", "Y")}}
+	grp := c19Group("F3", "N", c19Comp("P2", "Y"))
+	m2 := &XMLComponent{Name: "M2", MsgType: "E", Members: []*XMLComponentMember{c19Comp("P2", c19Req("M2.P2.required")), grp}}
+	if ndBool("group-uses-P1") {
+		grp.Members[0].Name = "P1"
+	}
+	doc := &XMLDoc{Type: "FIX", Major: "4", Minor: "4", Fields: c19Fields(), Components: []*XMLComponent{b, p1, p2}, Messages: []*XMLComponent{m1, m2}}
+	dict, err := new(builder).build(doc)
+	verifAssert(err == nil, "well-formed-specification-loads")
+	if err != nil {
+		return
+	}
+	for mi, xm := range doc.Messages {
+		md := dict.Messages[xm.MsgType]
+		w := &c19Walk{doc: doc, tags: map[int]bool{}, required: map[int]bool{}}
+		var order []int
+		w.members(xm.Members, true, true, &order)
+		for t := 1; t <= 6; t++ {
+			_, inTags := md.Tags[t]
+			verifAssert(inTags == w.tags[t], "tags-are-exactly-the-reachable-fields")
+			_, isReq := md.RequiredTags[t]
+			verifAssert(isReq == w.required[t], "required-exactly-direct-plus-required-components")
+			_, inFields := md.Fields[t]
+			isTop := false
+			for _, x := range w.top {
+				if x == t {
+					isTop = true
+				}
+			}
+			verifAssert(inFields == isTop, "fields-are-the-top-level-fields")
+		}
+		if mi == 1 {
+			gd := md.Fields[3]
+			want := w.groupOrder(grp)
+			verifAssert(gd != nil && len(gd.Fields) == len(want), "group-members-complete")
+			if gd != nil && len(gd.Fields) == len(want) {
+				for i, f := range gd.Fields {
+					verifAssert(f.Tag() == want[i], "group-members-in-declaration-order-components-expanded")
+				}
+			}
+		}
+	}
+	// the components themselves list their own expansion
+	for _, xc := range []*XMLComponent{p1, p2} {
+		ct := dict.ComponentTypes[xc.Name]
+		w := &c19Walk{doc: doc, tags: map[int]bool{}, required: map[int]bool{}}
+		var order []int
+		w.members(xc.Members, true, true, &order)
+		verifAssert(ct != nil && len(ct.Fields()) == len(order), "component-fields-complete")
+		if ct != nil && len(ct.Fields()) == len(order) {
+			for i, f := range ct.Fields() {
+				verifAssert(f.Tag() == order[i], "component-fields-are-its-own-expansion")
+			}
+		}
+	}
+}
